@@ -18,7 +18,7 @@ EXTENDS Integers, Sequences, FiniteSets, TLC
 CONSTANTS MaxObs
 
 L0 == [obs |-> 0, rcache |-> 0, bwRecv |-> 0, bwSend |-> 0]
-Kinds == {"plainOK", "plainSepCon", "plainCancel", "plainExpire", "plainRst", "dupToken",
+Kinds == {"plainOK", "plainSepCon", "plainBadToken", "plainCtxWrite", "plainCancel", "plainExpire", "plainRst", "dupToken",
           "bwUpOK", "bwUpCancel", "bwUpRefused", "bwDownOK", "bwDownAbandon",
           "obsOK", "obsCancel", "obsFail", "obsSilentCancel", "obsAckedCancel",
           "pingOK", "pingCancel", "oneWay",
